@@ -20,7 +20,7 @@ RULE = ("schemas with mutable defaults on typed lists/dicts (scalars, dict items
         "load of the unchanged files; hand-made argparse namespaces (known options, options a dynamic or fixed section "
         "does not declare) go through cmdline_args_override; non-trivial = >= 3 "
         "operations applied with >= 1 in-place mutation or dynamic field; distinct = distinct (schema, history)")
-REQUIRED = ("asdict_with_computed_fields", "schemas_with_encoded_values_in_default_items", "hand_written_documents_with_unknown_names", "inner_containers_changed_in_place", "asdict_results_changed_in_place", "failed_include_loads", "foreign_method_secrets_loaded", "schemas_with_environment_prefix", "resets_then_inplace_mutations", "cmdline_namespaces_applied", "same_document_loads", "cross_assignments", "serialisations_applied", "twin_before_checks", "twin_after_checks", "fingerprint_checks", "shared_item_checks", "ops_applied",
+REQUIRED = ("schemas_with_a_tuple_default_on_a_typed_list", "asdict_with_computed_fields", "schemas_with_encoded_values_in_default_items", "hand_written_documents_with_unknown_names", "inner_containers_changed_in_place", "asdict_results_changed_in_place", "failed_include_loads", "foreign_method_secrets_loaded", "schemas_with_environment_prefix", "resets_then_inplace_mutations", "cmdline_namespaces_applied", "same_document_loads", "cross_assignments", "serialisations_applied", "twin_before_checks", "twin_after_checks", "fingerprint_checks", "shared_item_checks", "ops_applied",
             "inplace_mutations", "dynamic_fields_added")
 ASSUMPTIONS = ["deep mutation inside an *untyped* default (ListField(default=[[1]]), Field(default=[...])) is out of "
                "scope: the property quantifies over mutable defaults on typed fields"]
@@ -58,6 +58,13 @@ def generate(rng, ctx):
                 node["key"] = key
                 schema["fields"].append(node)
                 nested.append((key, x))
+        if rng.random() < 0.5 and all(ch["key"] != "nt0" for ch in schema["fields"]):
+            # the declared default of a typed list of typed lists is written as a TUPLE of lists
+            node = L(L(dict(I)))
+            node["key"] = "nt0"
+            node["params"] = {"default": ([1, 2], [3])}
+            schema["fields"].append(node)
+            schema["tuple_default"] = True
     if rng.random() < 0.3:
         k = gen.pick_keys(rng, 1, avoid={ch["key"] for ch in schema["fields"]})[0]
         schema["fields"].append({"kind": "field", "key": k, "family": "virtual", "params": {"returns": "v"}})
@@ -131,6 +138,9 @@ def generate(rng, ctx):
             ("json", "{\"%s\": {\"x\": 1, \"y\": {\"z\": 2}}}" % tag),
             ("yaml", "%s:\n  x: 1\n  y: {z: 2}\n" % tag)])
         ops.insert(rng.randrange(len(ops) + 1), {"op": "loads_raw", "fmt": doc[0], "doc": doc[1]})
+    if schema.get("tuple_default"):
+        for _ in range(2):
+            ops.insert(rng.randrange(0, len(ops) + 1), {"op": "inner_mutate", "path": "nt0", "x": 7, "which": rng.randrange(4), "k": "zq"})
     for key, x in nested:
         ops.insert(0, {"op": "set", "route": "attr", "path": key, "value": start[key]})
         cross.insert(0, key)
@@ -303,6 +313,8 @@ def run(case, ctx, res):
         if any(k.upper().startswith("VFC13") for k in os.environ):
             return
         res.count("schemas_with_environment_prefix")
+    if case["schema"].get("tuple_default"):
+        res.count("schemas_with_a_tuple_default_on_a_typed_list")
     if case["schema"].get("encoded_item_defaults"):
         res.count("schemas_with_encoded_values_in_default_items")
     drv = history.Driver(ctx, res, case["schema"], env)
